@@ -24,3 +24,25 @@ Definition chk_po2_stoch (c : po2cfg) (xb ub yb : Z) : Z :=
       else chk_po2_out x (sign1r x) (clip mn mx pred) (clip mn mx pred) y
   | _, _, _ => 3
   end.
+
+(* quadratic_approximation = True: the exponent of sqrt(x) is rounded stochastically, clipped to [min_exp, 2*(max_exp/2)] and
+   DOUBLED, so the codes are 4^k.  sqrt is not rational: y < val is decided as x < val^2 (val > 0), with the same 2^-18 bands
+   around the decision point and around the lattice points 4^l, 4^(l+1) where float32 sqrt / log may fall on either side.
+   Inputs below epsilon get the exponent min_exp itself (not doubled), as in the code. *)
+Definition chk_po2_stoch_quad (c : po2cfg) (xb ub yb : Z) : Z :=
+  match f32_dec xb, f32_dec ub, f32_dec yb with
+  | Some x, Some u, Some y =>
+    let mn := po2_min_exp (p_bits c) (p_mv c) in let mx := 2 * (po2_max_exp (p_bits c) (p_mv c) / 2) in
+    let xabs := rabs x in
+    if rlt xabs eps32 then chk_po2_out x (sign1r x) mn mn y
+    else
+      let xf := match p_mv c with Some v => if rle v xabs then v else xabs | None => xabs end in
+      let l := exp_floor xf / 2 in                     (* floor(log2(sqrt xf)) *)
+      let val := fadd (rpow2 l) (fmul (rsub (rpow2 (l + 1)) (rpow2 l)) u) in
+      let val2 := rmul val val in
+      let pred := if rlt xf val2 then l else l + 1 in
+      let near := near18 xf val2 || near18 xf (rpow2 (2 * l)) || near18 xf (rpow2 (2 * l + 2)) in
+      if near then chk_po2_out x (sign1r x) (2 * clip mn mx (l - 1)) (2 * clip mn mx (l + 1)) y
+      else chk_po2_out x (sign1r x) (2 * clip mn mx pred) (2 * clip mn mx pred) y
+  | _, _, _ => 3
+  end.
